@@ -109,9 +109,33 @@ def _parse_case_line(line):
     return json.loads(json.loads(inner))
 
 
+TLC_INTERNAL_RETRIES = []      # (module, message) of TLC-internal exceptions that went away on a re-run (reported in the evidence)
+
+
 def run_tlc(module, cfg=None, workers=None, timeout=900, simulate=None, depth=None, seed=None,
             env=None, deadlock=False, coverage=False, heap="8g", extra=(), case_tag="CASE",
             keep_cases=True, on_case=None, cfg_text=None):
+    """run_tlc with one safeguard: a multi-worker TLC run occasionally dies of an exception inside TLC itself (seen once
+    under heavy load: `java.lang.RuntimeException: Field name b occurs multiple times in record` on a model that passes
+    otherwise).  Such a failure says nothing about the specification or the code: the run is repeated (the last time
+    with one worker); a failure that persists is reported as before."""
+    kw = dict(cfg=cfg, workers=workers, timeout=timeout, simulate=simulate, depth=depth, seed=seed, env=env, deadlock=deadlock,
+              coverage=coverage, heap=heap, extra=extra, case_tag=case_tag, keep_cases=keep_cases, on_case=on_case, cfg_text=cfg_text)
+    res = _run_tlc_once(module, **kw)
+    attempts = 0
+    while (not res.ok and on_case is None and attempts < 2 and "TLC threw an unexpected exception" in (res.violation or "")
+           and "is violated" not in (res.violation or "")):
+        attempts += 1
+        TLC_INTERNAL_RETRIES.append({"module": module, "attempt": attempts, "message": (res.violation or "")[:300]})
+        if attempts == 2:
+            kw["workers"] = 1
+        res = _run_tlc_once(module, **kw)
+    return res
+
+
+def _run_tlc_once(module, cfg=None, workers=None, timeout=900, simulate=None, depth=None, seed=None,
+                  env=None, deadlock=False, coverage=False, heap="8g", extra=(), case_tag="CASE",
+                  keep_cases=True, on_case=None, cfg_text=None):
     """Runs TLC on spec/<module>.tla with spec/mc/<cfg>.cfg.  Returns a TlcResult.
 
     Lines printed by the spec as PrintT(<<"CASE", ToJson(x)>>) are parsed into result.cases.
@@ -555,6 +579,8 @@ class Check:
         cov.update(self.notes)
         if SKIPPED_TRACES:
             cov["trace_validations_timed_out_inconclusive"] = SKIPPED_TRACES[:20]
+        if TLC_INTERNAL_RETRIES:
+            cov["tlc_internal_exceptions_retried"] = TLC_INTERNAL_RETRIES[:10]
         ev = {
             "property_id": self.pid,
             "tier": self.tier,
